@@ -183,3 +183,91 @@ pub fn record_diagram(a: &Value, tr: &mut Tr, fns: &[&'static str], counts: &mut
         }
     }
 }
+
+// ---------------------------------------------------------------------------------------------
+// GENERIC-PHASE tier (`--generic N`): diagrams whose phases are NOT multiples of pi/4, i.e. the clause "otherwise it holds
+// to floating-point tolerance" of C01.  The scalar of the result is then a float-approximate Scalar4 (the float branch of
+// `From<Phase> for Scalar4`, one_plus_phase, mul_phase, the approx flags).  TLC cannot decide floating point: the
+// harness evaluates pre and post with the independent float reference evaluator (refeval.rs, itself validated against
+// the specification's exact Den by Trace_Tensor!RefEvalOK) and logs the BOOLEAN `close` = max entry difference <= 1e-9
+// (relative to the largest entry, at least 1); mc/Trace_Simp.tla judges it (SoundFloat, NoPanic, Terminates).
+//   begin {what: "generic", pre}                       header (the diagram, phases as [n,d])
+//   simpf {fn, be, res: ok|panic|timeout, close, approx, changed}
+// ---------------------------------------------------------------------------------------------
+
+fn run_one_f<G: GraphLike>(a: &Value, name: &'static str, be: &str, pre: &[crate::refeval::C]) -> Value {
+    let mut g: G = crate::refeval::build_f(a);
+    let a0 = abs(&g);
+    match guarded(|| run_simp(name, &mut g)) {
+        Err(msg) => json!({"k": "simpf", "fn": name, "be": be, "res": "panic", "msg": msg}),
+        Ok(_) => {
+            let post = crate::refeval::abs_f(&g);
+            // the work of the naive evaluator is bounded; gen_pivot-type rules create vertices, so measure the result
+            if crate::refeval::den_bits(&post) > crate::refeval::MAX_BITS {
+                return json!({"k": "simpf", "fn": name, "be": be, "res": "toobig"});
+            }
+            let close = crate::refeval::close(&crate::refeval::ref_den(&post), pre, 1e-9);
+            let mut p2 = post.clone();
+            p2.as_object_mut().unwrap().remove("scf");
+            json!({"k": "simpf", "fn": name, "be": be, "res": "ok", "close": close, "approx": crate::absg::sc_is_approx(g.scalar()),
+                   "changed": canon(&p2) != canon(&a0)})
+        }
+    }
+}
+
+fn batch_f<G: GraphLike + 'static>(a: &Value, fns: &[&'static str], be: &'static str, pre: &[crate::refeval::C]) -> Vec<Value> {
+    let (a1, f1, p1) = (a.clone(), fns.to_vec(), pre.to_vec());
+    if let Some(v) = with_watchdog(20 + fns.len() as u64, move || f1.iter().map(|n| run_one_f::<G>(&a1, n, be, &p1)).collect::<Vec<_>>()) {
+        return v;
+    }
+    fns.iter()
+        .map(|&n| {
+            let (a1, p1) = (a.clone(), pre.to_vec());
+            with_watchdog(20, move || run_one_f::<G>(&a1, n, be, &p1)).unwrap_or_else(|| json!({"k": "simpf", "fn": n, "be": be, "res": "timeout"}))
+        })
+        .collect()
+}
+
+/// all simplifiers on one generic-phase diagram, both backends (one event when both say the same)
+pub fn record_generic_diagram(a: &Value, tr: &mut Tr, fns: &[&'static str]) {
+    tr.group();
+    tr.emit(json!({"k": "begin", "what": "generic", "pre": a}));
+    let pre = crate::refeval::ref_den(a);
+    let evs = batch_f::<quizx::vec_graph::Graph>(a, fns, "vec", &pre);
+    let ehs = batch_f::<quizx::hash_graph::Graph>(a, fns, "hash", &pre);
+    for (ev, eh) in evs.into_iter().zip(ehs.into_iter()) {
+        let same = {
+            let (mut x, mut y) = (ev.clone(), eh.clone());
+            x["be"] = json!("");
+            y["be"] = json!("");
+            x == y
+        };
+        if same {
+            let mut e = eh;
+            e["be"] = json!("both");
+            tr.emit(e);
+        } else {
+            tr.emit(ev);
+            tr.emit(eh);
+        }
+    }
+}
+
+pub fn record_generic(n: usize, seed: u64, tr: &mut Tr, fns: &[&'static str]) -> usize {
+    let mut r = crate::gens::rng(seed ^ 0x6e7e);
+    for i in 0..n {
+        // every fourth diagram is obtained from a circuit with generic rz / rx / parity-phase angles ("and for all diagrams
+        // obtained from circuits"); to_graph only supplies the input here (C02 judges it)
+        let a = if i % 4 == 3 {
+            let cj = crate::circ::generic_circuit(&mut r, 2, 5, true, 0);
+            let g: quizx::vec_graph::Graph = crate::circ::circ_from_json(&cj).to_graph();
+            abs(&g)
+        } else {
+            crate::gens::generic_diagram(&mut r, i)
+        };
+        if a["sc"].is_array() && crate::refeval::den_bits(&a) <= 16 {
+            record_generic_diagram(&a, tr, fns);
+        }
+    }
+    n
+}
